@@ -585,7 +585,8 @@ def c18(tier):
     out = Outcome("C18", tier, "fault_enumeration")
     parts = [("bytes/rel", "rel", "lexmc", ["--mode", "bytes"]), ("prefixes/rel", "rel", "lexmc", ["--mode", "prefixes", "--repo", vbuild.REPO]),
              ("bytes/dbg", "dbg", "lexmc", ["--mode", "bytes"]), ("prefixes/dbg", "dbg", "lexmc", ["--mode", "prefixes", "--repo", vbuild.REPO]),
-             ("parse/dbg", "dbg", "lexmc", ["--mode", "parse"]), ("tokens/dbg", "dbg", "lexmc", ["--mode", "tokens"])]
+             ("parse/dbg", "dbg", "lexmc", ["--mode", "parse"]), ("tokens/dbg", "dbg", "lexmc", ["--mode", "tokens"]),
+             ("json/rel", "rel", "lexmc", ["--mode", "json"]), ("json/dbg", "dbg", "lexmc", ["--mode", "json"])]
     res = run_parts(out, parts, tier)
     # (b) valid programs: every program family through read()+solve() in Release and Debug+ASan+UBSan;
     #     only abnormal outcomes (abort, assertion, sanitizer report, foreign exception, no answer) are judged here
